@@ -200,7 +200,13 @@ fn oracle(c: &Case, acc: &mut Acc) -> CaseResult {
     // receiver that knows what it expects): the message must still be judged as a whole
     let tight = spec.key_seed % 3 == 0;
     let honest_size = spec.key_seed % 3 == 1 && (c.plen + l.overhead == genuine.len());
-    let mut buf = vec![0u8; if tight { (altered.len().max(genuine.len())).saturating_sub(l.overhead).max(c.plen) } else if honest_size { c.plen } else { 65535 + 64 }];
+    // ... or no room at all (`&mut []`, what a caller that expects no payload passes): an error is
+    // always acceptable, a successful read of an altered message is judged as everywhere else
+    let empty = spec.key_seed % 3 == 2 && spec.key_seed % 2 == 0;
+    let mut buf = vec![0u8; if empty { 0 } else if tight { (altered.len().max(genuine.len())).saturating_sub(l.overhead).max(c.plen) } else if honest_size { c.plen } else { 65535 + 64 }];
+    if empty {
+        acc.label("read_buffer:empty");
+    }
     if tight {
         acc.label("read_buffer:tight");
     }
